@@ -796,3 +796,125 @@ def r7(prog):
                              "msg": "%s returns `no stack` at %s after its upstream pull at %s SUCCEEDED: consumers take that as end of input, so the remaining input stacks are dropped (and a half-drained upstream is left for the next feed)" % (f["q"], bad[1], bad[0]),
                              "detail": None})
     return inst, findings
+
+
+# ---------------------------------------------------------------------------
+# T4: the transitive closure operator on finite relations (source evaluation)
+
+def t4(prog, tier="quick"):
+    """op_tr_closure::next with next_from_upstream, next_from_op, send_to_op and state::yield_and_cache, interpreted from source.  The
+    operator touches stacks only through ==/< (the seen-set), copies them and hands them to the body, so stacks are modelled as the
+    nodes of a finite graph and the body E as its successor relation: every relation on 3 nodes with out-degree <= 2, every input
+    sequence of length <= 2 (3), `*` and `+`.  Expected: inputs are served in order; `E*` yields the input first and then every other
+    stack reachable from it exactly once; `E+` yields every stack reachable by one or more steps exactly once; nothing is carried
+    over from one input to the next; the operator then reports exhaustion and stays exhausted."""
+    import itertools
+    from cxxobj import CxxEvaluator, Obj, OutOfBounds
+    from absint import Thrown
+    inst, findings = [], []
+
+    def one(q):
+        fs = [f for f in prog.funcs.values() if f["q"] == q and f.get("body") is not None]
+        if len(fs) != 1:
+            raise Broken("anchor %s vanished" % q)
+        return fs[0]
+    nxt = one("op_tr_closure::next")
+
+    class Src:
+        def __init__(self):
+            self.queue = []
+            self.addr = id(self)
+
+    def op_next(ev, o, a):
+        if isinstance(o, Src):
+            return o.queue.pop(0) if o.queue else None
+        raise Broken("op::next on an object the closure model does not know")
+    rel = {}
+
+    def set_next(ev, o, a):
+        stk = a[1]
+        o.inner.queue = list(rel.get(stk, ()))
+        return None
+    states = {}
+    hooks = {
+        "op::next": op_next,
+        "op_origin::set_next": set_next,
+        "scon::get<*": lambda ev, o, a: states["st"],
+        "std::make_unique<stack*": lambda ev, o, a: a[0],
+        "ctor:stack": lambda ev, o, a: a[0],
+        "stack::operator==": lambda ev, o, a: o == a[0],
+        "stack::operator<": lambda ev, o, a: o < a[0],
+    }
+    ev = CxxEvaluator(hooks, {}, prog=prog)
+    nodes = (1, 2, 3)          # non-zero: a stack pointer is tested for null
+    succs = [()] + [(x,) for x in nodes] + [(x, y) for x in nodes for y in nodes if x != y]
+    if tier != "thorough":
+        succs = [(), (1,), (2,), (2, 3), (3, 1)]
+    inputs = [(x,) for x in nodes] + [(x, y) for x in nodes for y in nodes]
+    if tier != "thorough":
+        inputs = [(1,), (3,), (1, 2), (2, 1), (1, 1), (3, 2)]
+    if tier == "thorough":
+        inputs += [(1, 3, 1), (2, 2, 3), (3, 1, 2)]
+    key = "T4:op_tr_closure"
+    bad = None
+    n_eval = 0
+
+    def reach(s, plus):
+        seen, todo = [], list(rel.get(s, ()))
+        if not plus:
+            seen = [s]
+        while todo:
+            x = todo.pop(0)
+            if x in seen:
+                continue
+            seen.append(x)
+            todo += list(rel.get(x, ()))
+        return seen
+    try:
+        for e0, e1, e2 in itertools.product(succs, repeat=3):
+            rel.clear()
+            rel.update({1: e0, 2: e1, 3: e2})
+            for plus in (False, True):
+                for ins in inputs:
+                    up, inner = Src(), Src()
+                    up.queue = list(ins)
+                    origin = Obj("op_origin")
+                    origin.inner = inner
+                    op = Obj("op_tr_closure")
+                    op.m_upstream, op.m_origin, op.m_op, op.m_is_plus, op.m_ll = up, origin, inner, plus, 0
+                    states["st"] = ev.new_object("op_tr_closure::state")
+                    ev.steps = 0
+                    got = []
+                    limit = sum(len(reach(s, plus)) for s in ins) + 3
+                    for _ in range(limit):
+                        v = ev.call(nxt, op, [Obj("scon")])
+                        n_eval += 1
+                        if v is None:
+                            break
+                        got.append(v)
+                    again = ev.call(nxt, op, [Obj("scon")]) if len(got) < limit else "more"
+                    want_blocks = [reach(s, plus) for s in ins]
+                    ok = len(got) == sum(len(b) for b in want_blocks) and again is None
+                    pos = 0
+                    if ok:
+                        for s, blk in zip(ins, want_blocks):
+                            seg = got[pos:pos + len(blk)]
+                            pos += len(blk)
+                            if sorted(seg) != sorted(blk) or (not plus and seg and seg[0] != s):
+                                ok = False
+                    if not ok and bad is None:
+                        bad = "`E%s` with E = %s fed the stacks %s yields %s%s; expected per input %s (each reachable stack exactly once%s)" % (
+                            "+" if plus else "*", {k: list(v) for k, v in rel.items()}, list(ins), got, " and more" if again == "more" else (" and then %r after reporting exhaustion" % again if again is not None else ""),
+                            want_blocks, "" if plus else ", the input itself first")
+                if bad:
+                    break
+            if bad:
+                break
+    except OutOfBounds as x:
+        bad = bad or "op_tr_closure: %s" % x
+    except Thrown as x:
+        bad = bad or "op_tr_closure raises an error (%s)" % x
+    inst.append((key, {"next_calls": n_eval}))
+    if bad:
+        findings.append({"key": key, "where": "libzwerg/" + nxt["l"], "msg": bad, "detail": None})
+    return inst, findings
